@@ -389,6 +389,16 @@ static void janet_stream_close_impl(JanetStream *stream) {
     }
 #else
     if (stream->handle != -1) {
+#ifdef JANET_EV_EPOLL
+        /* epoll keeps a registration for as long as the open file description lives, and that can be
+         * longer than this descriptor (a duplicate made by ev/to-file, or inherited by a child). The
+         * registration points at this stream object, so it has to go before the object can. */
+        if (!(stream->flags & JANET_STREAM_UNREGISTERED)) {
+            struct epoll_event ev;
+            memset(&ev, 0, sizeof(ev));
+            epoll_ctl(janet_vm.epoll, EPOLL_CTL_DEL, stream->handle, &ev);
+        }
+#endif
         if (canclose) close(stream->handle);
         stream->handle = -1;
 #ifdef JANET_EV_POLL
